@@ -300,6 +300,16 @@ impl std::fmt::Display for Pieces<'_> {
     }
 }
 
+/// a value whose Display emits its text and then panics (the caller catches the panic and goes on)
+struct PanicAfter<'a>(&'a str);
+
+impl std::fmt::Display for PanicAfter<'_> {
+    fn fmt(&self, f: &mut std::fmt::Formatter<'_>) -> std::fmt::Result {
+        f.write_str(self.0)?;
+        panic!("Display impl gives up")
+    }
+}
+
 struct FailAfter<'a>(&'a str);
 
 impl std::fmt::Display for FailAfter<'_> {
@@ -348,6 +358,21 @@ fn adapted_mode(log: &mut impl Write, seed: u64, n: u64) {
             }] += 1;
             // a value whose Display emits its text and then reports an error: what was delivered before the error stays
             // (only where the stream itself survives such a value: std's write_fmt panics on it in pass-through mode)
+            // a Display impl that panics half way through (caught by the caller): the next call on this thread renders
+            // its own text only
+            let (got, want) = if got == want && i % 20 == 6 {
+                let pa = PanicAfter(&text);
+                let prev = std::panic::take_hook();
+                std::panic::set_hook(Box::new(|_| {}));
+                let _ = std::panic::catch_unwind(std::panic::AssertUnwindSafe(|| anstream::_macros::to_adapted_string(&pa, &sink)));
+                std::panic::set_hook(prev);
+                let g2 = anstream::_macros::to_adapted_string(&"after \x1b[1mthe\x1b[0m panic", &sink);
+                let mut r2 = AutoStream::new(Vec::<u8>::new(), decided);
+                let _ = write!(r2, "{}", "after \x1b[1mthe\x1b[0m panic");
+                (g2, String::from_utf8_lossy(&r2.into_inner()).into_owned())
+            } else {
+                (got, want)
+            };
             let (got, want) = if got == want && i % 3 == 1 {
                 // the same text arriving in small fragments
                 let pc = Pieces(&text, ((i / 3) % 3) as u8);
